@@ -33,6 +33,9 @@ def list_of(v, st):
 _PROBE = z3.Int("mask_probe_index")
 
 
+ISNONE = z3.Function("ISNONE", USort, z3.BoolSort())     # spec predicate: this opaque label is None
+
+
 def as_array(v, st):
     """view a value as ArrData (lists become 1-D arrays, scalars 0-D)"""
     a = arr_of(v, st)
@@ -111,6 +114,19 @@ class Lib:
             res = z3.Exists([q], z3.And(0 <= q, q < to_int(b.shape[0]), to_int(b.sel(q)) == to_int(l)))
             return res if isinstance(op, ast.In) else z3.Not(res)
         a, b = as_array(l, st), as_array(r, st)
+        if isinstance(op, (ast.Eq, ast.NotEq)) and ((a is not None and a.kind == "o" and r is None) or (b is not None and b.kind == "o" and l is None)):
+            # array of opaque labels compared with None: elementwise 'the label is None' (assumed: a label compares equal to None iff it is None)
+            _used(E, "object array == None: elementwise 'is None' (spec predicate ISNONE on opaque labels)")
+            o = a if r is None else b
+            neg = isinstance(op, ast.NotEq)
+
+            def f(*i, o=o, neg=neg):
+                e = o.sel(*i)
+                if not isinstance(e, Opaque):
+                    return z3.BoolVal(neg)
+                t = ISNONE(e.sym)
+                return z3.Not(t) if neg else t
+            return st.alloc(ArrData(o.shape, f, "b"))
         if a is None or b is None:
             return Opaque("array-cmp")
         shape, fa, fb = _broadcast(a, b)
